@@ -249,7 +249,70 @@ def check_imgvec(o):
     return bad
 
 
-CHECKS = {"crop": check_crop, "patch": check_patch, "imgvec": check_imgvec}
+def check_geom3d(o):
+    """C01 in 3-D: per-axis maps of rescale / mirror / zoom on coordinate-ramp images (Image, MaskedImage, BooleanImage)"""
+    from menpo.image import BooleanImage, Image, MaskedImage
+    from menpo.shape import PointCloud
+
+    bad = []
+    c = o["case"]
+    g = c["g"]
+    if not o["ok"]:
+        return bad
+    sh = tuple(c["shape"])
+    d = len(sh)
+    a = np.array([L.fl(x) for x in o["a"]])
+    b = np.array([L.fl(x) for x in o["b"]])
+    want_shape = tuple(o["shape"])
+    ramp = np.indices(sh).astype(float)
+    mask = (np.indices(sh).sum(axis=0) % 3) != 0
+    lms = np.array([[1.0, 1.0, 1.0], [1.5, 2.25, 0.5], [sh[0] - 2.0, 0.5, sh[2] - 1.5]])
+    for cls in ("Image", "MaskedImage", "BooleanImage"):
+        if cls == "Image":
+            img = Image(ramp.copy())
+        elif cls == "MaskedImage":
+            img = MaskedImage(ramp.copy(), mask=mask.copy())
+        else:
+            img = BooleanImage(mask.copy())
+        img.landmarks["lm"] = PointCloud(lms.copy())
+        keep = img.pixels.copy()
+        tag = "%s %s%r on a %r image" % (cls, g["op"], g["s"] or g["axis"], sh)
+        if g["op"] == "rescale":
+            res, T = img.rescale([L.fl(x) for x in g["s"]], round=g["mode"], return_transform=True)
+        elif g["op"] == "mirror":
+            res, T = img.mirror(axis=g["axis"], return_transform=True)
+        else:
+            res, T = img.zoom(L.fl(g["s"][0]), return_transform=True)
+        if not np.array_equal(img.pixels, keep) or not np.array_equal(img.landmarks["lm"].points, lms):
+            bad.append((tag + ": the operation modified its input", {}, None))
+        if type(res) is not type(img) or tuple(res.shape) != want_shape:
+            bad.append((tag + ": result %s of shape %r, expected shape %r" % (type(res).__name__, tuple(res.shape), want_shape), {}, None))
+            continue
+        probe = np.array([[0.0] * d, [1.0, 2.0, 1.0], [0.5, 1.25, 2.0]])
+        if not L.close(T.apply(probe), probe * a + b, 1e-9):
+            bad.append((tag + ": the returned transform is not the per-axis map the pixels were sampled with", {"got": T.apply(probe), "want": probe * a + b}, None))
+        want_lm = (lms - b) / a
+        if not L.close(res.landmarks["lm"].points, want_lm, 1e-9):
+            bad.append((tag + ": landmarks not moved with the pixels", {"got": res.landmarks["lm"].points, "want": want_lm}, None))
+        idx = np.argwhere(np.ones(want_shape, dtype=bool)).astype(float)
+        src = idx * a + b
+        inside = ((src > 1e-6) & (src < np.array(sh) - 1 - 1e-6)).all(axis=1) | ((np.abs(src - np.round(src)) < 1e-12).all(axis=1) & ((src >= 0) & (src <= np.array(sh) - 1)).all(axis=1))
+        ii = idx[inside].astype(int)
+        if cls != "BooleanImage" and len(ii):
+            got = res.pixels[:, ii[:, 0], ii[:, 1], ii[:, 2]]
+            if not L.close(got, src[inside].T, 1e-9):
+                bad.append((tag + ": pixel content is not registered with the returned transform", {}, None))
+        if cls != "Image" and len(ii):
+            gm = res.mask.mask if cls == "MaskedImage" else res.mask
+            near = np.round(src[inside]).astype(int)
+            safe = (np.abs(np.abs(src[inside] - np.floor(src[inside])) - 0.5) > 1e-6).all(axis=1)
+            jj, nn = ii[safe], near[safe]
+            if not np.array_equal(gm[jj[:, 0], jj[:, 1], jj[:, 2]], mask[nn[:, 0], nn[:, 1], nn[:, 2]]):
+                bad.append((tag + ": the mask is not carried by the same map as the pixels", {}, None))
+    return bad
+
+
+CHECKS = {"crop": check_crop, "patch": check_patch, "imgvec": check_imgvec, "geom3d": check_geom3d}
 
 
 def run_case(o):
